@@ -56,7 +56,13 @@ def relLookups (m : Spec.RelMap) : Gen (List Nat × List Nat) := do
   let fns ← Gen.listOf 4 (pick (m.mappings.map (·.2)))
   return (oids, fns)
 
-def relFieldOffsets : List (Nat × Nat) := [(0, 4), (4, 4), (4, 1), (7, 1), (504, 4)]
+def relFieldOffsets : List (Nat × Nat) := [(0, 4), (4, 4), (4, 1), (7, 1), (504, 4), (520, 4)]
+
+/-- what a correct tool reports for a 524-byte file whose first 512 bytes are the 12–15 encoding of `m` and whose last
+12 bytes are `tail`: the file size says PostgreSQL 16, so slots 62 and 63 hold the old crc/pad and the first 8 bytes of
+`tail` (unused as long as the count is ≤ 62) and the crc is the last four bytes -/
+def showRelSpecAs16 (m : Spec.RelMap) (tail : Bytes) (oids fns : List Nat) : String :=
+  showRelSpec { m with crc := rdAt 4 8 tail } oids fns
 
 def genRelCase (idx : Nat) : Gen RelCase := do
   -- fixed prefix: counts −1..63 (stored as i32), every single-bit variant of the magic, file lengths
@@ -66,11 +72,11 @@ def genRelCase (idx : Nat) : Gen RelCase := do
     let (oids, fns) ← relLookups m
     let file := Spec.encRelMapRaw Spec.relmapMagic (ofSigned 32 cnt) m
     let ok := 0 ≤ cnt ∧ cnt ≤ 62
-    return ⟨file, oids, fns, if ok then showRelSpec m oids fns else "err", [if ok then "count=ok" else "count=bad", "nt"]⟩
+    return ⟨file, oids, fns, if ok then showRelSpec m oids fns else "err", [if ok then "count=ok" else "count=bad", "layout=v12", "nt"]⟩
   if idx < 65 + 32 then
     let m ← Gen.genRelMapN 3
     let file := Spec.encRelMapRaw (Spec.relmapMagic ^^^ 2 ^ (idx - 65)) 3 m
-    return ⟨file, [], [], "err", ["magic=onebit", "nt"]⟩
+    return ⟨file, [], [], "err", ["magic=onebit", "layout=v12", "nt"]⟩
   if idx < 65 + 32 + 8 then
     let m ← Gen.genRelMapN 5
     let (oids, fns) ← relLookups m
@@ -79,44 +85,90 @@ def genRelCase (idx : Nat) : Gen RelCase := do
       | 0 => (full.take 511, "err")
       | 1 => (full, showRelSpec m oids fns)
       | 2 => (full ++ [7], showRelSpec m oids fns)
-      | 3 => (full ++ zeros 12, showRelSpec m oids fns)       -- 524 bytes: the PostgreSQL 16 size
+      -- 524 bytes = the PostgreSQL 16 size: such a file is read as the 16 layout (crc = its last four bytes)
+      | 3 => (full ++ (zeros 8 ++ le 4 0xCAFEF00D), showRelSpecAs16 m (zeros 8 ++ le 4 0xCAFEF00D) oids fns)
       | 4 => (full ++ zeros (8192 - 512), showRelSpec m oids fns)
       | 5 => ([], "err")
       | 6 => (full.take 8, "err")
       | _ => (full.take 507, "err")
-    return ⟨file, oids, fns, spec, [s!"len={file.length}", "nt"]⟩
-  match ← Gen.below 8 with
+    return ⟨file, oids, fns, spec, [s!"len={file.length}", "layout=v12", "nt"]⟩
+  -- PostgreSQL 16 layout (64 slots, crc at 520, 524 bytes): counts −1, 0, 1, 61..66, true crc, sizes around 524
+  if idx < 105 + 9 then
+    let cnt : Int := [-1, 0, 1, 61, 62, 63, 64, 65, 66].getD (idx - 105) 0
+    let m ← Gen.genRelMap16N (min cnt.toNat 64)
+    let (oids, fns) ← relLookups m
+    let file := Spec.encRelMapRaw Spec.relmapMagic (ofSigned 32 cnt) m
+    let ok := 0 ≤ cnt ∧ cnt ≤ 64
+    return ⟨file, oids, fns, if ok then showRelSpec m oids fns else "err",
+      [if ok then "count=ok" else "count=bad", "layout=v16", s!"len={file.length}", "nt"]⟩
+  if idx < 105 + 9 + 6 then
+    let m0 ← Gen.genRelMap16N ([2, 64, 17, 17, 63, 64].getD (idx - 114) 2)
+    let m := Gen.withTrueCrc m0
+    let (oids, fns) ← relLookups m
+    let full := Spec.encRelMap m
+    let (file, spec, tag) : Bytes × String × String := match idx - 114 with
+      | 0 => (full, showRelSpec m oids fns, "crc=true")                 -- n = 2, the stored crc is the CRC-32C of bytes 0..520
+      | 1 => (full, showRelSpec m oids fns, "crc=true")                 -- n = 64
+      | 2 => (full.take 523, "-", "len=523")                            -- not a genuine size (read as the 12–15 layout)
+      | 3 => (full ++ [0], "-", "len=525")
+      | 4 => (full ++ [0], "err", "len=525")                            -- 63 mappings in a file that is not 524 bytes long
+      | _ => (full.take 520 ++ le 4 (m.crc ^^^ 1), showRelSpec { m with crc := m.crc ^^^ 1 } oids fns, "crc=onebit")
+    return ⟨file, oids, fns, spec, [tag, "layout=v16", "nt"]⟩
+  match ← Gen.below 12 with
   | 0 => do                                     -- wrong magic
     let m ← Gen.genRelMap
     let magic ← Gen.oneOf [0, 0x592716, 0x592718, 0x17275900, 0xFF592717, 0x2717, 2 ^ 32 - 1]
-    return ⟨Spec.encRelMapRaw magic m.mappings.length m, [], [], "err", ["magic=bad", "nt"]⟩
+    return ⟨Spec.encRelMapRaw magic m.mappings.length m, [], [], "err", ["magic=bad", "layout=v12", "nt"]⟩
   | 1 => do                                     -- impossible count
     let m ← Gen.genRelMapN 62
     let cnt ← Gen.oneOf [63, 64, 2 ^ 31 - 1, 2 ^ 31, 2 ^ 32 - 1, 2 ^ 32 - 62, 256, 65536 + 5]
-    return ⟨Spec.encRelMapRaw Spec.relmapMagic cnt m, [], [], "err", ["count=bad", "nt"]⟩
+    return ⟨Spec.encRelMapRaw Spec.relmapMagic cnt m, [], [], "err", ["count=bad", "layout=v12", "nt"]⟩
   | 2 => do                                     -- malformed (spec silent)
-    let m ← Gen.genRelMap
+    let m ← (do if ← Gen.bool then Gen.genRelMap else Gen.genRelMap16)
     let (oids, fns) ← relLookups m
     let file ← corrupt relFieldOffsets (Spec.encRelMap m)
     return ⟨file, oids, fns, "-", ["malformed"]⟩
+  | 3 => do                                     -- PostgreSQL 16: wrong magic / impossible count
+    let m ← Gen.genRelMap16N 64
+    if ← Gen.bool then
+      let magic ← Gen.oneOf [0, 0x592716, 0x592718, 0x17275900, 0xFF592717, 0x2717, 2 ^ 32 - 1]
+      return ⟨Spec.encRelMapRaw magic 64 m, [], [], "err", ["magic=bad", "layout=v16", "nt"]⟩
+    else
+      let cnt ← Gen.oneOf [65, 66, 128, 2 ^ 31 - 1, 2 ^ 31, 2 ^ 32 - 1, 2 ^ 32 - 64, 256, 65536 + 5]
+      return ⟨Spec.encRelMapRaw Spec.relmapMagic cnt m, [], [], "err", ["count=bad", "layout=v16", "nt"]⟩
+  | 4 | 5 | 6 => do                             -- PostgreSQL 16 maps: exactly 524 bytes
+    let m0 ← Gen.genRelMap16
+    let trueCrc ← Gen.prob 1 3
+    let m := if trueCrc then Gen.withTrueCrc m0 else m0
+    let (oids, fns) ← relLookups m
+    let dup := m.mappings.length != (m.mappings.map (·.1)).eraseDups.length
+    return ⟨Spec.encRelMap m, oids, fns, showRelSpec m oids fns,
+      [(if m.mappings.length == 0 then "n=0" else if m.mappings.length ≥ 63 then "n=63..64" else "n=1..62"),
+       (if dup then "dups=1" else "dups=0"), "layout=v16", "len=524", (if trueCrc then "crc=true" else "crc=any"), "nt"]⟩
   | _ => do
-    let m ← Gen.genRelMap
+    let m0 ← Gen.genRelMap
+    let trueCrc ← Gen.prob 1 3
+    let m := if trueCrc then Gen.withTrueCrc m0 else m0
     let (oids, fns) ← relLookups m
     let tail ← (do match ← Gen.below 4 with
       | 0 => Gen.bytes 12
       | 1 => do Gen.bytes (← Gen.range 1 600)
       | _ => pure [])
     let dup := m.mappings.length != (m.mappings.map (·.1)).eraseDups.length
-    return ⟨Spec.encRelMap m ++ tail, oids, fns, showRelSpec m oids fns,
+    -- a 12-byte tail makes the file 524 bytes long: read as the PostgreSQL 16 layout
+    let spec := if tail.length == 12 then showRelSpecAs16 m tail oids fns else showRelSpec m oids fns
+    return ⟨Spec.encRelMap m ++ tail, oids, fns, spec,
       [(if m.mappings.length == 0 then "n=0" else if m.mappings.length == 62 then "n=62" else "n=1..61"),
-       (if dup then "dups=1" else "dups=0"), (if tail.isEmpty then "len=512" else "len>512"), "nt"]⟩
+       (if dup then "dups=1" else "dups=0"), "layout=v12",
+       (if tail.isEmpty then "len=512" else if tail.length == 12 then "len=524" else "len>512"),
+       (if trueCrc then "crc=true" else "crc=any"), "nt"]⟩
 
 def relmapGen (seed idx _size : Nat) : Case :=
   let k := (genRelCase idx).run' (Prng.ofSeed seed idx)
   let args := [hexRle k.file, commaNat k.oids, commaNat k.fns]
   { tags := k.tags, model := relmapEval args, spec := k.spec, args }
 
-def relmap : Family := { name := "relmap", gen := relmapGen, eval := relmapEval, fixed := 105 }
+def relmap : Family := { name := "relmap", gen := relmapGen, eval := relmapEval, fixed := 120 }
 
 def relmapTotalModel (file : Bytes) : String := ctlOkOrPanic (Model.parseRelMapFile file)
 
@@ -130,7 +182,8 @@ def relmapTotal : Family :=
         | 2 => pure (zeros 512)
         | 3 => pure (List.replicate 512 255)
         | _ =>
-          if idx % 5 == 0 then do Gen.bytes (← Gen.oneOf [0, 8, 511, 512, 513, 524])
+          if idx % 5 == 0 then do Gen.bytes (← Gen.oneOf [0, 8, 511, 512, 513, 523, 524, 525])
+          else if idx % 5 == 1 then do corrupt relFieldOffsets (Spec.encRelMap (← Gen.genRelMap16))
           else do corrupt relFieldOffsets (Spec.encRelMap (← Gen.genRelMap)) : Gen Bytes)).run' (Prng.ofSeed seed idx)
       { tags := [if file.length < 512 then "len<512" else "len>=512"], model := relmapTotalModel file, spec := "ok", args := [hexRle file] },
     eval := fun args => match args with | [f] => relmapTotalModel (unhex f) | _ => "bad-args" }
